@@ -161,6 +161,7 @@ def strip_closures(path):
 
 
 def panic_sites(prog, chk, reach):
+    D.PROG = prog
     sites = panics.inventory(prog, reach)
     table = load_table("panic_allow.json")
     allow = {}
